@@ -170,7 +170,7 @@ func NewSys(plan *Plan) *Sys {
 	s.Topo.AddNode(ctlutils.GetOnosConfigID())
 	s.Plugin = NewPlugin(k, ModelName, ModelVersion)
 	for _, t := range plan.Knobs.Targets {
-		s.Topo.AddTarget(t, ModelName, ModelVersion, plan.Knobs.Persistent[t])
+		s.Topo.AddTarget(t, ModelName, ModelVersion, plan.Knobs.Persistent[t], plan.Knobs.ValidateCaps[t])
 		d := NewDevice(k, t, s.Eff)
 		d.Shared = plan.Knobs.SharedChannel
 		if plan.Knobs.RejectDev {
